@@ -248,6 +248,20 @@ def r_cursor_count(cx, tags):
 BYTE, CHAR, NEUTRAL, UNKNOWN, MIXED = "byte", "char", "neutral", "unknown", "MIXED"
 
 
+def name_unit(nm):
+    """Unit declared by an identifier: ..._byte_..., ..._char_... (the repo's own naming convention)."""
+    import re
+    if re.search(r"(^|_)bytes?(_|$)", nm):
+        return BYTE
+    if re.search(r"(^|_)chars?(_|$)", nm):
+        return CHAR
+    return None
+
+
+def is_plain_int(ty):
+    return ty in ("u32", "usize", "u64", "i32", "i64", "u16", "isize")
+
+
 class Units:
     def __init__(self, fx, fname, body):
         self.fx, self.fname, self.body = fx, fname, body
@@ -301,9 +315,7 @@ class Units:
                 us = [self.unit(i, depth + 1) for i in self.inits.get(r["local"], [])]
                 if not us:
                     nm = r.get("name") or ""
-                    if "byte" in nm:
-                        return BYTE
-                    return UNKNOWN
+                    return name_unit(nm) or UNKNOWN
                 u = us[0]
                 for x in us[1:]:
                     u = self.join(u, x)
@@ -402,6 +414,24 @@ def r_units(cx, tags):
                             checks.append(("str[..]|" + f["name"], BYTE, f["e"]))
                 elif k == "Binary" and node.get("op") in ("Lt", "Le", "Gt", "Ge", "Eq", "Ne", "Sub", "Add"):
                     checks.append(("binop|" + node["op"], "same", (node["l"], node["r"])))
+                elif k == "Struct" and node.get("fields") and not node.get("exp"):
+                    # plain-integer fields whose *name* declares the unit (at_byte_offset, at_char_offset, ...)
+                    for f in node["fields"]:
+                        want = name_unit(f.get("name") or "")
+                        if want and "e" in f and is_plain_int(F.strip(f["e"]).get("ty") or ""):
+                            checks.append(("field|%s.%s" % ((node.get("path") or node.get("ty") or "?").split("::")[-1], f["name"]), want, f["e"]))
+                elif k in ("Call", "MethodCall") and (node.get("def") or "") and F.norm(node.get("def")) in fx.bodies and not node.get("exp"):
+                    # plain-integer parameters of crate functions whose *name* declares the unit
+                    cal = fx.bodies[F.norm(node["def"])]
+                    params = cal.get("params", [])
+                    args = list(node.get("args", []))
+                    if k == "MethodCall":
+                        args = [node["recv"]] + args
+                    for prm, a in zip(params, args):
+                        pn = prm.get("name") if prm.get("k") == "Bind" else None
+                        want = name_unit(pn or "")
+                        if want and is_plain_int(F.strip(a).get("ty") or ""):
+                            checks.append(("arg|%s(%s)" % (F.norm(node["def"]).replace("Lexer::", ""), pn), want, a))
                 if not checks:
                     continue
                 if U is None:
@@ -631,3 +661,114 @@ def r_eof(cx, fx):
     cx.ob(rule, "lex|tail", ok, lex["span"] if lex else "", "lex() ends with finalize_lexing() then into_detached()" if ok else
           "lex() does not end with finalize_lexing() followed by into_detached()")
     cx.count(rule, "producers", len(users))
+
+
+# ---------------------------------------------------------------------------
+# R-COMUTATE: a scalar field that is maintained together with a container is maintained by *every* mutator
+
+LEN_MUTATORS = {"push", "push_within_capacity", "insert", "truncate", "pop", "clear", "remove", "swap_remove", "extend",
+                "extend_from_slice", "drain", "push_str", "retain", "append", "split_off", "resize", "set_len", "dedup"}
+
+
+def comutate(fx):
+    """[(struct, scalar field F, container V, mutator method lacking a write of F, methods that do both)].
+    F is *coupled* to V when at least two non-constructor methods both change V's length and assign F (directly or
+    through a method of the same struct they call)."""
+    by_struct = {}
+    for name, b in fx.bodies.items():
+        if b.get("kind") != "AssocFn" or not b.get("impl_self") or fx.is_derive(name) or name.startswith("<"):
+            continue
+        by_struct.setdefault(b["impl_self"], {})[name] = b
+    out = []
+    stats = {"structs": 0, "containers": 0, "coupled": 0}
+    for st_name, methods in by_struct.items():
+        muts, writes, calls = {}, {}, {}
+        for name, b in methods.items():
+            m, w, c = set(), set(), set()
+            returns_self = False
+            for node, par in F.walk(b["hir"]):
+                k = node.get("k")
+                if k == "MethodCall":
+                    r = F.strip(node["recv"])
+                    if node.get("name") in LEN_MUTATORS and r.get("k") == "Field" and is_self_field(r, r.get("name")):
+                        m.add(r["name"])
+                    d = F.norm(node.get("def") or "")
+                    if d in methods and d != name:
+                        c.add(d)
+                elif k in ("Assign", "AssignOp"):
+                    l = F.strip(node["l"])
+                    if l.get("k") == "Field" and is_self_field(l, l.get("name")):
+                        w.add(l["name"])
+            params = b.get("params") or []
+            has_self = bool(params) and params[0].get("k") == "Bind" and params[0].get("name") == "self"
+            if not has_self or not (params[0].get("ty") or "&mut").startswith("&mut"):
+                continue      # constructors initialise everything at once; `self` by value consumes the object
+            muts[name], writes[name], calls[name] = m, w, c
+        if not muts:
+            continue
+        stats["structs"] += 1
+        # coupling is judged on what a method does itself; a write through a same-struct callee discharges
+        twrites = {n: set(w) for n, w in writes.items()}
+        changed = True
+        while changed:
+            changed = False
+            for n in twrites:
+                for c in calls[n]:
+                    if c in twrites and not twrites[c] <= twrites[n]:
+                        twrites[n] |= twrites[c]
+                        changed = True
+        containers = set().union(*muts.values()) if muts else set()
+        scalars = set().union(*writes.values()) - containers if writes else set()
+        stats["containers"] += len(containers)
+        for v in sorted(containers):
+            mv = sorted(n for n in muts if v in muts[n])
+            for f in sorted(scalars):
+                both = [n for n in mv if f in writes[n]]
+                if len(both) >= 2:
+                    stats["coupled"] += 1
+                    for n in mv:
+                        if f not in twrites[n]:
+                            out.append((st_name, f, v, n, both))
+    return out, stats
+
+
+class _ComutateFixture:
+    """Tiny positive fixture: `cache` is written by push_item and cut, but not by put_at."""
+    def __init__(self):
+        def selff(name):
+            return {"k": "Field", "name": name, "base": {"k": "Path", "res": {"local": 1, "name": "self"}}}
+
+        def body(stmts):
+            return {"kind": "AssocFn", "impl_self": "fixture::Buf", "span": "fixture:1:1", "params": [{"k": "Bind", "name": "self", "id": 1}],
+                    "hir": {"k": "Block", "stmts": stmts, "expr": None}}
+
+        def mut(method):
+            return {"k": "MethodCall", "name": method, "def": "std::vec::Vec::" + method, "recv": selff("items"), "args": []}
+        wr = {"k": "Assign", "l": selff("cache"), "r": {"k": "Lit", "lt": "int", "v": 0}}
+        self.bodies = {"fixture::Buf::push_item": body([mut("push"), wr]), "fixture::Buf::cut": body([mut("truncate"), wr]),
+                       "fixture::Buf::put_at": body([mut("insert")])}
+
+    def is_derive(self, name):
+        return False
+
+
+def r_comutate(cx, tags):
+    rule = "R-COMUTATE"
+    cx.rules_run.append(rule)
+    hits, _ = comutate(_ComutateFixture())
+    cx.ob(rule, "selftest|fixture", len(hits) == 1 and hits[0][3].endswith("put_at"), "",
+          "the co-mutation rule fires on its positive fixture (%d hit)" % len(hits))
+    structs = 0
+    for tag in tags:
+        fx = cx.facts(tag)
+        hits, stats = comutate(fx)
+        structs = max(structs, stats["structs"])
+        cx.analysed.setdefault(rule, {})[tag] = stats
+        for st_name, f, v, n, both in hits:
+            b = fx.bodies[n]
+            cx.ob(rule, "%s|%s~%s|%s" % (st_name.split("::")[-1], f, v, n.split("::")[-1]), False, F.file_line(b["span"]),
+                  "%s changes the length of `%s` without updating `%s`, which %s maintain together with it: the field goes "
+                  "stale on this path (configuration %s)" % (n, v, f, ", ".join(x.split("::")[-1] for x in both), tag))
+        cx.ob(rule, "all-mutators|%s" % tag, not hits, "", "every length-changing method updates the scalar fields coupled to the container "
+              "(%d structs, %d containers, %d couplings)" % (stats["structs"], stats["containers"], stats["coupled"]) if not hits else "%d deviant mutator(s)" % len(hits))
+    cx.count(rule, "structs", structs)
